@@ -69,6 +69,12 @@ def publicPairsSigned (C : Crypto) (secs : List Bytes) : List (Bytes × Int) →
         | .error e => .error e
         | .ok l' => .ok (l ++ l')
 
+/-- `public_pairs_signed` on the blobs of one signature operation -/
+def whoSignedBlobs (C : Crypto) (dig : Bytes → Nat → Option Int) (secs sigs : List Bytes) : Except WErr (List (Pt × Nat)) :=
+  match sigHashes dig sigs with
+  | .error e => .error e
+  | .ok pairs => publicPairsSigned C secs pairs
+
 /-- what the signature operation of a base template finds: `(secs, sigs)` top of stack first; `none` = evaluation stops before
 the operation.  `stack` is bottom first. -/
 def baseBlobs (code : Bytes) (stack : List Bytes) : Except WErr (Option (List Bytes × List Bytes)) :=
@@ -130,9 +136,6 @@ def whoSignedInput (C : Crypto) (sighash : Bool → Bytes → Bytes → Nat → 
   match sigOpBlobs puzzle script witness with
   | .error e => .error e
   | .ok none => .ok []
-  | .ok (some ((secs, sigs), code, wit)) =>
-    match sigHashes (sighash wit code) sigs with
-    | .error e => .error e
-    | .ok pairs => publicPairsSigned C secs pairs
+  | .ok (some ((secs, sigs), code, wit)) => whoSignedBlobs C (sighash wit code) secs sigs
 
 end Pycoin.Sign
